@@ -38,6 +38,10 @@ static const Bulk BULKS[] = {
     {"bigstr.ber-tiny-segments", "BigStr", "BigStr", nullptr, [](size_t k) { return bulk_segments(0x24, 0x04, k / 3, false); }, 1, 8},
     {"bigbits.ber-tiny-segments", "BigBits", "BigBits", nullptr, [](size_t k) { return bulk_segments(0x23, 0x03, k / 3, false); }, 1, 8},
     // Sim3: payload inside an information-object-class open type (a decoder that is not restartable re-reads it on every delivery)
+    // a SET OF with exactly 1..4 x 16384 one-octet elements behind a label of k % 64 octets: the last fragment is full, the list ends
+    // with a zero-length fragment, and the label moves both across the alignments of the encoders' staging buffers
+    {"batch.exact-fragments", "Batch", "Batch", [](size_t k) { std::string o = "<Batch><label>" + hexrun(k % 64) + "</label><samples>"; size_t cnt = 16384 * (1 + (k / 64) % 4);
+                                                            o.reserve(o.size() + cnt * 22 + 32); for(size_t q = 0; q < cnt; q++) o += "<INTEGER>7</INTEGER>"; return o + "</samples></Batch>"; }, nullptr, 0},
     // XER only (raw_syntax 4), text the library's encoder never writes: long bodies of primitive types, long runs between members
     {"prims.real-trailing-blanks", "Prims", "Prims", nullptr, [](size_t k) { return prims_xer("7", "0.5" + std::string(k, ' '), "1.2.3", ""); }, 4},
     {"prims.real-long-digits", "Prims", "Prims", nullptr, [](size_t k) { return prims_xer("7", "0." + std::string(k, '3'), "1.2.3", ""); }, 4},
